@@ -179,6 +179,11 @@ func (al *agentListener) serv(c *conn2) {
 
 		switch v := o.(type) {
 		case *Hello:
+			if v.Laddr == nil || v.Raddr == nil {
+				log.Errorf("Ignoring hello with an unsupported address")
+				continue
+			}
+
 			ac := &agentConnection{
 				Laddr: v.Laddr,
 				Raddr: v.Raddr,
@@ -191,6 +196,11 @@ func (al *agentListener) serv(c *conn2) {
 			conn := event.WithConn(ac, event.Custom("agent", token))
 			al.ch <- conn
 		case *ReadWriteTCP:
+			if v.Laddr == nil || v.Raddr == nil {
+				log.Errorf("Ignoring data with an unsupported address")
+				continue
+			}
+
 			conn := conns.Get(v.Laddr, v.Raddr)
 			if conn == nil {
 				continue
@@ -198,10 +208,22 @@ func (al *agentListener) serv(c *conn2) {
 
 			conn.receive(v.Payload)
 		case *ReadWriteUDP:
+			laddr, ok := v.Laddr.(*net.UDPAddr)
+			if !ok {
+				log.Errorf("Ignoring datagram with an unsupported address")
+				continue
+			}
+
+			raddr, ok := v.Raddr.(*net.UDPAddr)
+			if !ok {
+				log.Errorf("Ignoring datagram with an unsupported address")
+				continue
+			}
+
 			al.ch <- &listener.DummyUDPConn{
 				Buffer: v.Payload,
-				Laddr:  v.Laddr.(*net.UDPAddr),
-				Raddr:  v.Raddr.(*net.UDPAddr),
+				Laddr:  laddr,
+				Raddr:  raddr,
 				Fn: func(b []byte, addr *net.UDPAddr) (int, error) {
 					payload := make([]byte, len(b))
 					copy(payload, b)
@@ -217,6 +239,11 @@ func (al *agentListener) serv(c *conn2) {
 				},
 			}
 		case *EOF:
+			if v.Laddr == nil || v.Raddr == nil {
+				log.Errorf("Ignoring end of stream with an unsupported address")
+				continue
+			}
+
 			conn := conns.Get(v.Laddr, v.Raddr)
 			if conn == nil {
 				continue
